@@ -118,7 +118,7 @@ func init() {
 			"Each program is rendered by the real code and compared with an interpreter that keeps an explicit scope chain. distinct_nontrivial = distinct sources with at least one assignment or read",
 		Assumptions: []string{
 			"a loop is one block for all its passes (a name assigned in one pass is visible in the next)",
-			"component arguments colliding with visible names are exercised by C07's tree workload",
+			"component arguments colliding in type with visible names are exercised by C07's tree workload as well",
 		},
 		Setup: func(c *core.Ctx) {
 			if err := registerTracers(); err != nil {
@@ -201,6 +201,31 @@ func init() {
 			loopCases := reservedLoopCases()
 			secs = append(secs, core.Section{Name: "reserved-loop", Exhaustive: true, N: len(loopCases),
 				Run: func(c *core.Ctx, i int) { judgeScope(c, loopCases[i].prog, loopCases[i].data, "reserved-loop") }})
+			// a component is a block: its arguments and what its file assigns vanish when it ends
+			compCases := componentScopeCases()
+			secs = append(secs, core.Section{Name: "component-scope", Exhaustive: true, N: len(compCases),
+				Run: func(c *core.Ctx, i int) {
+					cs := compCases[i]
+					t := newTree("c04tree", ".tw")
+					t.files["components/c"] = cs.comp
+					t.files["page"] = cs.page
+					files := t.sources(model.Style{Layout: model.SpaceLayout})
+					tpl, err := loadTree(c, "c04tree", files, ".tw")
+					c.Nontrivial(fmt.Sprint(files, cs.data))
+					c.Sample(map[string]any{"files": describeFiles(files), "data": model.DescribeData(cs.data)})
+					if err != nil {
+						c.Violation("component-scope:load-failed", err.Error(), map[string]any{"files": describeFiles(files)})
+						return
+					}
+					if tpl == nil {
+						return
+					}
+					exp := t.expectPage("page", cs.data)
+					got, _ := renderPage(c, tpl, "page", model.NativeData(cs.data))
+					if why := compare(exp, got, false, nil); why != "" {
+						c.Violation("component-scope:"+scopeFailureClass(exp, got), why, map[string]any{"files": describeFiles(files), "data": model.DescribeData(cs.data), "expected": expectText(exp)})
+					}
+				}})
 			// random scope-heavy programs
 			n, depth := 10000, 3
 			if tier == core.Thorough {
@@ -300,4 +325,70 @@ func scopeFailureClass(exp Expect, got Outcome) string {
 		return "rejected"
 	}
 	return "wrong-value"
+}
+
+type compScopeCase struct {
+	comp, page []model.Stmt
+	data       map[string]model.Value
+}
+
+// componentScopeCases: a component file that assigns names (new ones, names of the
+// caller, names of the data, with the same or another type) used with no arguments,
+// with an empty object, with arguments; the caller reads every name afterwards
+func componentScopeCases() []compScopeCase {
+	var out []compScopeCase
+	v := func(n string) model.Expr { return model.Var{Name: n} }
+	read := func(n string) []model.Stmt {
+		return []model.Stmt{model.Text{S: "<" + n + ":"}, model.Print{E: v(n)}, model.Text{S: ">"}}
+	}
+	for _, argForm := range []int{0, 1, 2, 3} { // none, {}, {arg: ...}, {arg, x}
+		for _, inside := range []int{0, 1, 2, 3, 4} {
+			for _, where := range []int{0, 1, 2} { // top level, inside @each, twice in a row
+				var comp []model.Stmt
+				comp = append(comp, model.Text{S: "[c "})
+				switch inside {
+				case 0: // a new name
+					comp = append(comp, model.Assign{Name: "fresh", E: model.Lit{V: model.Int(1)}}, model.Print{E: v("fresh")})
+				case 1: // a name of the caller, same type
+					comp = append(comp, model.Assign{Name: "x", E: model.Binary{Op: "+", L: v("x"), R: model.Lit{V: model.Int(1)}}}, model.Print{E: v("x")})
+				case 2: // a data name, same type
+					comp = append(comp, model.Assign{Name: "d", E: model.StrLit{S: "inner"}}, model.Print{E: v("d")})
+				case 3: // a name of the caller, another type: an error
+					comp = append(comp, model.Assign{Name: "x", E: model.StrLit{S: "retyped"}}, model.Print{E: v("x")})
+				case 4: // reads only
+					comp = append(comp, model.Print{E: v("x")}, model.Text{S: "/"}, model.Print{E: v("d")})
+				}
+				comp = append(comp, model.Text{S: "]"})
+				use := model.Component{Name: "~c"}
+				switch argForm {
+				case 1:
+					use.Args = &model.ObjLit{}
+				case 2:
+					use.Args = &model.ObjLit{Keys: []string{"arg"}, Vals: []model.Expr{model.Lit{V: model.Int(7)}}}
+				case 3:
+					use.Args = &model.ObjLit{Keys: []string{"arg", "x"}, Vals: []model.Expr{model.Lit{V: model.Int(7)}, model.Lit{V: model.Int(50)}}}
+				}
+				page := []model.Stmt{model.Assign{Name: "x", E: model.Lit{V: model.Int(10)}}}
+				switch where {
+				case 0:
+					page = append(page, use, model.Text{S: "|"})
+				case 1:
+					page = append(page, model.Each{Var: "e", Arr: intArr(1, 2), Body: []model.Stmt{model.Text{S: "("}, use, model.Text{S: ")"}}}, model.Text{S: "|"})
+				case 2:
+					page = append(page, use, model.Text{S: "|"}, use, model.Text{S: "|"})
+				}
+				page = append(page, read("x")...)
+				page = append(page, read("d")...)
+				out = append(out, compScopeCase{comp, page, map[string]model.Value{"d": model.Str("data")}})
+				// and names that must be gone afterwards
+				if inside == 0 {
+					out = append(out, compScopeCase{comp, append(append([]model.Stmt{}, page...), read("fresh")...), map[string]model.Value{"d": model.Str("data")}})
+				}
+				if argForm >= 2 {
+					out = append(out, compScopeCase{comp, append(append([]model.Stmt{}, page...), read("arg")...), map[string]model.Value{"d": model.Str("data")}})
+				}
+			}
+		}
+	}
+	return out
 }
